@@ -42,10 +42,22 @@ def run_part(ck):
     for lay in T.gen_t3(rng, nl3, ck.thorough, big=ck.thorough):
         # physical memory larger than the declared Nmaxb: blocks beyond must never be addressed
         lays.append(T.L3(lay.nbr, lay.nbw, lay.nmaxb, lay.old, T.rbytes(rng, 16 * (lay.nmaxb + 3), 1), extra_blocks=2))
-    lays += T.gen_t4(rng, nl4, ck.thorough, big=False)
+    # Type 4: the simulated file physically extends 8 octets beyond the announced maximum file size, so an
+    # UPDATE BINARY beyond the limit is executed and observable; mapping version 3 / extended control TLV
+    # (4-octet NLEN) layouts are always present
+    t4 = [T.L4(0x30, 6, 59, 52, 100, T.rbytes(rng, 40, 1), b""), T.L4(0x30, 6, 255, 255, 300, b"", b""),
+          T.L4(0x30, 6, 16, 4, 9, b"", b""), T.L4(0x20, 4, 59, 52, 100, T.rbytes(rng, 98, 1), b"")]
+    t4 += T.gen_t4(rng, nl4, ck.thorough, big=False)
+    for lay in t4:
+        lays.append(T.L4(lay.ver, lay.tag, lay.mle, lay.mlc, lay.mfs, lay.old, T.rbytes(rng, lay.mfs + 8, 1), extra=8))
     for lay in lays:
-        for n in T.lengths(rng, lay.cap, 2):
-            if n > lay.cap:
+        # lengths up to the capacity the tag REPORTS (cap-1 and cap always): a capacity beyond the layout makes
+        # the write leave the NDEF area
+        _, nd0 = T.see(lay.sim())
+        rep_cap = nd0.capacity if nd0 is not None else lay.cap
+        ck.count("%s:reported-capacity-%s" % (lay.kind, "ok" if rep_cap == lay.cap else "differs"))
+        for n in sorted(set(T.lengths(rng, lay.cap, 2)) | {rep_cap - 1, rep_cap}):
+            if n < 0 or n > max(rep_cap, lay.cap) or n > lay.cap + 64:
                 continue
             data = T.rbytes(rng, n, 1)
             sim = lay.sim()
@@ -58,7 +70,10 @@ def run_part(ck):
                 before, after = lay.mem, bytes(sim.mem)
                 nb = (n + 15) // 16
                 for bl, d in sim.writes:
-                    if any(b > nb or b > lay.nmaxb for b in bl):
+                    if any(b > lay.nmaxb for b in bl):
+                        ck.fail("t3-write-beyond-nmaxb", "write command addresses blocks %s, Nmaxb is %d (message of %d "
+                                "octets, reported capacity %d)" % (bl, lay.nmaxb, n, rep_cap), replay)
+                    elif any(b > nb for b in bl):
                         ck.fail("t3-write-outside-ndef-blocks", "write command addresses blocks %s, message needs 1..%d, "
                                 "Nmaxb %d" % (bl, nb, lay.nmaxb), replay)
                 allowed = set(range(9, 10)) | set(range(11, 16)) | set(range(16, 16 + 16 * nb))
@@ -69,9 +84,18 @@ def run_part(ck):
                 jobs.append((T.t4_req("set", var, lay, lay.file, data), run.line, replay))
                 before, after = lay.file, bytes(sim.file)
                 for fid, off, d in sim.writes:
-                    if fid != lay.fid or off + len(d) > lay.nl + n or off + len(d) > lay.mfs:
+                    if fid == lay.fid and off + len(d) > lay.mfs:
+                        ck.fail("t4-update-beyond-max-file-size", "UPDATE BINARY offset %d length %d reaches beyond the "
+                                "maximum file size %d of the capability container (control TLV T=%d, NLEN %d octets, "
+                                "reported capacity %d, message %d octets)" % (off, len(d), lay.mfs, lay.tag, lay.nl, rep_cap, n),
+                                replay)
+                    elif fid != lay.fid or off + len(d) > lay.nl + n:
                         ck.fail("t4-update-outside-ndef-area", "UPDATE BINARY file %s offset %d length %d, message %d octets, "
                                 "size limit %d" % (fid.hex(), off, len(d), n, lay.mfs), replay)
+                beyond = [a for a in range(lay.mfs, len(before)) if before[a] != after[a]]
+                if beyond:
+                    ck.fail("t4-octets-beyond-max-file-size-changed", "file octets %s beyond the maximum file size %d "
+                            "changed (message of %d octets, reported capacity %d)" % (beyond, lay.mfs, n, rep_cap), replay)
                 bad = [a for a in range(len(before)) if before[a] != after[a] and a >= lay.nl + n]
                 if bad:
                     ck.fail("t4-octets-outside-ndef-area-changed", "file octets %s changed" % bad[:8], replay)
